@@ -105,6 +105,37 @@ pub fn c01(tier: Tier) -> Vec<Scenario> {
     s.oracles = route.clone();
     out.push(s);
 
+    // an open search is abandoned from another handle and the server goes on sending its items:
+    // once the Abandon has been acknowledged they are late responses, for nobody
+    for chain in [Chain::Direct, Chain::EntriesOnly] {
+        let mut s = Scenario::new(&format!("C01/abandon-open-stream/{:?}", chain));
+        s.clients = vec![
+            client(vec![start("s0", chain), Call::Next, Call::Next, Call::Next, Call::Next, Call::Finish]),
+            client(vec![Call::Abandon(AbTarget::Marker("s0".into())), single(OpKind::Compare, "b1")]),
+        ];
+        s.plans.insert("s0".into(), plan_items(&[E, E, E]));
+        s.answer_after_abandon = true;
+        s.select_starts = vec![0, 1];
+        s.oracles = route.clone();
+        out.push(s);
+    }
+
+    // a response whose messageID is 2^32 + a pending ID (five octets) is for nobody: it is no
+    // LDAPMessage at all, and whatever a caller is handed afterwards was sent under its own ID
+    for with_stream in [false, true] {
+        let mut s = Scenario::new(&format!("C01/wide-id-frame/stream={}", with_stream));
+        s.clients = vec![
+            if with_stream { client(vec![start("s0", Chain::Direct), Call::Next, Call::Next, Call::Finish]) } else { client(vec![single(OpKind::Delete, "a0")]) },
+            client(vec![single(OpKind::Compare, "b0"), single(OpKind::Bind, "b1")]),
+        ];
+        s.plans.insert("s0".into(), plan_items(&[E]));
+        s.faults = vec![FaultKind::WideId];
+        s.fault_budget = 1;
+        s.select_starts = vec![0, 1];
+        s.oracles = route.clone();
+        out.push(s);
+    }
+
     // a stream dropped without finish(): the rest of its items arrive late, for nobody, and
     // must not disturb the operations of the other handle
     let mut s = Scenario::new("C01/stream-dropped-unfinished");
@@ -1015,6 +1046,30 @@ pub fn c12(tier: Tier) -> Vec<Scenario> {
     s.tick_budget = 3;
     s.oracles = o.clone();
     out.push(s);
+    // after an operation has timed out, an untimed one on the same handle waits as long as it
+    // takes: the spent timeout is gone from the handle (longer than the old timeout, here)
+    for first in ["single", "search()", "stream"] {
+        let mut s = Scenario::new(&format!("C12/untimed-after-a-timed-out-{}", first));
+        s.clients = vec![client(match first {
+            "single" => vec![tsingle(OpKind::Compare, "t0", 10), single(OpKind::Bind, "a1"), single(OpKind::Delete, "a2")],
+            "search()" => vec![Call::Search { marker: "t0".into(), timeout: Some(10) }, single(OpKind::Bind, "a1"), Call::Search { marker: "a2".into(), timeout: None }],
+            _ => vec![
+                Call::Start { marker: "t0".into(), chain: Chain::Direct, timeout: Some(10), ctrl: false, opts: false, own_paging: false },
+                Call::Next,
+                Call::Finish,
+                single(OpKind::Bind, "a1"),
+                start("a2", Chain::Direct),
+                Call::Next,
+                Call::Finish,
+            ],
+        })];
+        s.plans.insert("t0".into(), Plan { silent: true, ..Default::default() });
+        s.tick_ms = 10;
+        s.tick_budget = 4;
+        s.select_starts = vec![0, 1];
+        s.oracles = o.clone();
+        out.push(s);
+    }
     // timed + untimed on two handles, late reply allowed for the timed-out one
     let mut s = Scenario::new("C12/timed+untimed-two-handles");
     s.clients = vec![client(vec![tsingle(OpKind::Compare, "t0", 10), single(OpKind::Bind, "a1")]), client(vec![single(OpKind::Delete, "b0")])];
@@ -1171,7 +1226,7 @@ pub fn c12(tier: Tier) -> Vec<Scenario> {
 pub fn c04(tier: Tier) -> Vec<Scenario> {
     let mut out = vec![];
     let o = Oracles { term: true, route: true, ..Default::default() };
-    let read_faults = vec![FaultKind::Eof, FaultKind::Reset, FaultKind::Garbage, FaultKind::ShortGarbage, FaultKind::InnerOverrun, FaultKind::BadResultTail];
+    let read_faults = vec![FaultKind::Eof, FaultKind::Reset, FaultKind::Garbage, FaultKind::ShortGarbage, FaultKind::InnerOverrun, FaultKind::WideId, FaultKind::BadResultTail];
     let write_faults = vec![FaultKind::WriteErr, FaultKind::WritePartial(3), FaultKind::WritePendingOnce];
     let mut all = read_faults.clone();
     all.extend(write_faults.clone());
